@@ -39,7 +39,7 @@ CLAIMED.update({
 
 CLAIMED.update({
  'C02': dict(
-   text='Function-level proofs: the aggregate step shared by hash and sort aggregation skips NULL for SUM/MIN/MAX/COUNT(x)/COUNT DISTINCT/FIRST and starts COUNT at 0, others at NULL; sort aggregation emits one row per maximal run of equal keys of the whole input, fed exactly that run (independent of chunking); the hash-join and semi-join probes never match a key containing NULL; the order analysis used to pick merge join / sort aggregation. Bounded: N-sqlagg, N-sqljoin, N-sqlexpr compare aggregates, all join kinds, IN/EXISTS and three-valued WHERE/SELECT expressions with oracles over small NULL-rich tables on both engines; ArrayImpl::sum by a bounded Kani harness. Three known findings (NOT IN, and-gt-lt-conflict, eq-trans). Partial: join coroutines as a whole, binder lowering, array kernels and egg rewrite rules are not under contract.',
+   text='Function-level proofs: the aggregate step shared by hash and sort aggregation skips NULL for SUM/MIN/MAX/COUNT(x)/COUNT DISTINCT/FIRST and starts COUNT at 0, others at NULL; sort aggregation emits one row per maximal run of equal keys of the whole input, fed exactly that run (independent of chunking); the hash-join and semi-join probes never match a key containing NULL; the order analysis used to pick merge join / sort aggregation. the chunk-wise COUNT(DISTINCT) arm of Evaluator::eval_agg (ungrouped aggregation) adds exactly the non-NULL values of the chunk; Bounded: N-sqlagg, N-sqljoin, N-sqlexpr compare aggregates, all join kinds, IN/EXISTS and three-valued WHERE/SELECT expressions with oracles over small NULL-rich tables on both engines; ArrayImpl::sum by a bounded Kani harness. Three known findings (NOT IN, and-gt-lt-conflict, eq-trans). Partial: join coroutines as a whole, binder lowering, array kernels and egg rewrite rules are not under contract.',
    note="Assumes A-dvarith (DataValue +/min/max shimmed from the macro text over {Null,Bool,Int32,Int64}), A-hashset, A-egg (children precede parents); integer overflow and mixed variants are preconditions.",
    technique='Verus contracts on extracted aggregate step functions, SortAggExecutor::execute, hash-join probes, analyze_order + bounded native SQL searches + one bounded Kani harness', design='5 (C02), 4.5 U-aggstep'),
 })
